@@ -15,7 +15,8 @@ ANCHORS = [('src/msmhelper/statetraj.py', ['StateTraj.__new__', 'StateTraj.__ini
 RULE = ('random histories of 3-25 ops (quick) / up to 120 (thorough) on real StateTraj / LumpedStateTraj objects built from 1-4 trajectories in every '
         'alphabet class and several container forms (list of arrays of the common dtype, mixed dtypes, 2-d array, lists): accessor calls (trajs, '
         'index_trajs, states, flattened forms, iteration, indexing with int and numpy ints, microstate_*, state_assignment, counters, repr), in-place '
-        'writes into any array returned so far and into the constructor arguments, re-construction from the object. After every op the value returned '
+        'writes into any array returned so far and into the constructor arguments, model estimation with the returned matrix / state array overwritten in '
+        'place, re-construction from the object. After every op the value returned '
         'is compared with the heap model; finally the full report. Non-trivial = history contains >=1 write before a later read; distinct by history.')
 RELATION = 'trace of returned values of the real object under the op sequence = trace of Heap.run on the heap model (constructor copies, accessors allocate fresh)'
 TRUSTED = ['numpy aliasing itself is executed, not modelled; the caller is assumed to reach private arrays only through public accessors (also probed with np.shares_memory)']
@@ -40,6 +41,10 @@ def gen_ops(rng, nargs, lens, lumped, nops, labels):
                 o['npint'] = rng.random() < 0.5
             ops.append(o)
             nacc += 1
+        elif r < 0.56 and not lumped:
+            # estimate a model from the object and overwrite the returned matrix and state array in place (invisible to the heap
+            # model: the arrays an analysis returns are fresh, so nothing the object reports may change)
+            ops.append({'op': 'estimate_overwrite', 'lag': rng.randint(1, 3)})
         elif r < 0.93:
             if rng.random() < 0.4 or nacc == 0:
                 tgt = {'arg': rng.randrange(nargs)}
